@@ -34,7 +34,9 @@ PARENTS = ['a + b', 'a - b', 'a * b', 'a ** b', 'a @ b', 'a // b', 'a % b', 'a <
            'async with a: pass', 'async with a as b: pass', 'async with a, b: pass', 'async for a in b: pass', 'async def g(x=a) -> b: pass', '[a async for b in c if d]', 'with (a, b): pass', 'with (a as b, c): pass',
            'try: pass\nexcept* a: pass', 'while a: pass\nelse: pass', 'if a: pass\nelif b: pass', 'for a, b in c: pass', 'x: a', 'class C[T: a](b): pass', 'type X[T: a] = b', '@a(b)\nclass D: pass',
            'lambda x, *, y=a: b', 'a[b:c, d]', 'a[*b]', '{a: b, **c}', 'f(a)(b)', 'a.b(c).d', 'print(a, sep=b)', 'x = [a] * b', 'return a, b', 'x = not a', 'x = -a', 'a <<= b', 'a **= b', 'assert (a, b)',
-           'match a:\n    case 1 if b: pass', 'f"{a!r}" f"{b:>{c}}"', 'x = a if b else c, d', 'del (a), [b]', 'raise a(b) from c.d', 'x = yield from a', 'x = [*a, *b]', 'with a as (b, c): pass']
+           'match a:\n    case 1 if b: pass', 'f"{a!r}" f"{b:>{c}}"', 'x = a if b else c, d', 'del (a), [b]', 'raise a(b) from c.d', 'x = yield from a', 'x = [*a, *b]', 'with a as (b, c): pass',
+           # parenthesized targets: fields derived from the target's spelling (AnnAssign.simple) must follow the source
+           '(a): b = c', '(a): b', '((a)): b = c', '(a) = b', '(a), b = c', 'for (a) in b: pass', 'with b as (a): pass', '[(a) for (a) in b]', 'del (a)', '(a) += b']
 CHILDREN = ['x', '1', '-1', 'x + y', 'x * y', 'x ** y', '-x', 'not x', 'x and y', 'x or y', 'x < y', 'x if y else z', 'lambda: x', 'lambda: (x, y)', 'x.y', 'x[y]', 'x(y)', '[x, y]', '(x, y)', 'x, y', '{x: y}', 'x := y',
             'yield x', 'yield', 'yield from x', 'await x', '*x', 'f"{x}"', '"s" "t"', 'x < y < z', 'x if y else (z if w else v)', '(x)', '((x + y))', 'x\n+\ny', 'x is y', 'x in y', '1.5', '1j', '...', 'x, ',
             'x for x in y', '"s"\n"t"', 'x  # c\n+ y', '(x\n, y)', 'x | y', 'x >> y', 'not x in y', '-x ** y', 'x.y(z)[w]', '{x}', '[x for x in y]', 'é + "ü"', 'lambda x, *y: (yield)', '(yield x)', '(x := y)', 'x,\ny', '1 .real', '1.0.real',
